@@ -101,6 +101,24 @@ def cycles_checks(specs, cycles, perm, cons=None, ordered=True):
     return None
 
 
+def documented_order_check(specs, cycles):
+    """The clause `order_respected` (QipVerif.C05.order_respected / order_respected_cons), stated with the DOCUMENTED rule
+    (`sc.documented_rule`, a fixed reference copy, never the code's function): two gates i < j that share a qubit and that
+    the documented rule does not declare commuting keep their order.  Evaluated after the physical clauses: a failure here
+    with an unchanged unitary means the dependency graph lost an edge between gates that happen to commute physically
+    (e.g. X and RX on one qubit, which the rule does not relate)."""
+    where = {i: ci for ci, c in enumerate(cycles) for i in c}
+    used = [sc.used_of(s) for s in specs]
+    for i in range(len(specs)):
+        for j in range(i + 1, len(specs)):
+            if used[i] & used[j] and not sc.documented_rule(specs[i], specs[j]) and not where[i] < where[j]:
+                return (f"gates {i} ({specs[i][0]} {specs[i][1]} {specs[i][2]}) and {j} ({specs[j][0]} {specs[j][1]} {specs[j][2]}) share a "
+                        f"qubit and are not declared commuting by the documented rule, but are in cycles {where[i]} and {where[j]} "
+                        f"of {cycles} (clause order_respected"
+                        + ("; the two gates commute physically, the unitary is unchanged)" if sc.truly_commute(specs[i], specs[j]) else ")"))
+    return None
+
+
 class C05(PropertyCheck):
     id = "C05"
 
@@ -564,6 +582,9 @@ class C05(PropertyCheck):
             shapes = shapes[:105] + rng.sample(shapes[105:], 600)
         batch = [(specs_from(seq), 2, m, p, k % 5 == 0, 0) for k, seq in enumerate(shapes) for m, p in settings]
         self._flush(ctx, res, batch, "interleaved")
+        # triples on which the rule is not transitive (H commutes with A and B, A and B are not related), all orders ---------
+        batch = [(specs_from(seq), 2, m, p, k % 4 == 0, 0) for k, seq in enumerate(sc.nontransitive_shapes()) for m, p in settings]
+        self._flush(ctx, res, batch, "nontransitive")
         # constructor arguments: every `method` value x every constraint list on fixed circuits, then random ----------
         batch = []
         for seq in self.CTOR_CIRCUITS:
@@ -630,7 +651,11 @@ class C05(PropertyCheck):
         err = float(np.abs(U0 - U1).max())
         if err > 1e-9:
             return True, f"scheduled order {cycles} changes the unitary (max entry difference {err:.3g})"
-        return False, f"cycles {cycles}: partition, exclusive, same unitary"
+        if perm:
+            bad = documented_order_check(specs, cycles)
+            if bad:
+                return True, bad
+        return False, f"cycles {cycles}: partition, exclusive, same unitary, order of undeclared pairs kept"
 
     def _replay_history(self, ctx, w):
         """several schedule() calls on ONE Scheduler object; the property is evaluated on every gate-mode result"""
@@ -783,7 +808,17 @@ class C05(PropertyCheck):
                     yield {"N": 3, "gates": specs_from(seq), "method": m, "perm": True, "shuf": None, "shuffle_seed": 1,
                            "repeat": 2, "repeat_cycles": rc, "scope": "covered"}
 
+    def _nontransitive(self):
+        """all orders of the triples on which the documented rule is not transitive (+ priority-changing tails)"""
+        for seq in sc.nontransitive_shapes():
+            for m in ("ASAP", "ALAP"):
+                yield {"N": 2, "gates": specs_from(seq), "method": m, "perm": True, "shuf": None, "repeat": 0,
+                       "scope": "covered"}
+            yield {"N": 2, "gates": specs_from(seq), "method": "ASAP", "perm": True, "shuf": None, "shuffle_seed": len(seq),
+                   "repeat": 0, "scope": "covered"}
+
     def _systematic(self):
+        yield from self._nontransitive()
         yield from self._constructor_witnesses()
         yield from self._interleaved()
         P = sc.placements(3)
@@ -862,6 +897,10 @@ class C05(PropertyCheck):
             if f:
                 yield w, d
         for w in self._family_witnesses():
+            f, d = self.oracle_replay(ctx, w)
+            if f:
+                yield w, d
+        for w in self._nontransitive():
             f, d = self.oracle_replay(ctx, w)
             if f:
                 yield w, d
